@@ -517,8 +517,8 @@ def _shared_c04(ctx):
     label_sinks(ctx, "R04.7", [(TO + ".fit", TO), (IT + "._pmf_predict", IT)])
 
 
-def r048_wiring(ctx):
-    ctx.rule("R04.8", "ThresholdOptimizer.fit runs the equalized-odds routine exactly when constraints == 'equalized_odds' and hands "
+def r048_wiring(ctx, rule="R04.8"):
+    ctx.rule(rule, "ThresholdOptimizer.fit runs the equalized-odds routine exactly when constraints == 'equalized_odds' and hands "
                       "(validated sensitive features, integer labels, soft predictions of estimator_ on X) to it in that order; both "
                       "routines wrap (estimator_, interpolation_dict, prefit=True, predict_method) in the InterpolatedThresholder; "
                       "predict / _pmf_predict pass X, sensitive_features and random_state through to it")
@@ -537,7 +537,7 @@ def r048_wiring(ctx):
         a_, b_ = v.args[1], v.args[2]
         ok = (c is is_eo and a_ is calls[eo].data["result"] and b_ is calls[simple].data["result"]) or \
              (c is A.C._not(is_eo) and b_ is calls[eo].data["result"] and a_ is calls[simple].data["result"])
-    ctx.ob("R04.8", fq, st[0].node, ok, "the equalized-odds routine runs exactly for constraints == 'equalized_odds'" if ok else
+    ctx.ob(rule, fq, st[0].node, ok, "the equalized-odds routine runs exactly for constraints == 'equalized_odds'" if ok else
            "the optimisation routine is not selected by constraints == 'equalized_odds'", construct="routine dispatch")
     val = calls_to(r, M_IV + ":_validate_and_reformat_input")
     sp = calls_to(r, "fairlearn.utils._common:_get_soft_predictions")
@@ -553,7 +553,7 @@ def r048_wiring(ctx):
         okargs = okargs and A.eq(arg(sp[0], 0), A.at(sp[0], "self.estimator_")) and arg(sp[0], 1) is r.params["X"] \
             and A.eq(arg(sp[0], 2), A.at(sp[0], "self._predict_method"))
         okargs = okargs and arg(val[0], 0) is r.params["X"] and arg(val[0], 1, "y") is y and kw(val[0], "sensitive_features") is r.params["sensitive_features"]
-    ctx.ob("R04.8", fq, st[0].node, bool(okargs), "the routine receives (validated sensitive features, labels, scores of estimator_ on X)",
+    ctx.ob(rule, fq, st[0].node, bool(okargs), "the routine receives (validated sensitive features, labels, scores of estimator_ on X)",
            construct="routine arguments")
     for rq in (eo, simple):
         A1 = Analysis(ctx, max_depth=1, inline=lambda f_, d_: False)
@@ -565,16 +565,16 @@ def r048_wiring(ctx):
             idict = arg(e, 1, "interpolation_dict")
             okc = A1.eq(arg(e, 0, "estimator"), A1.at(e, "self.estimator_")) and idict is not None and \
                 root_of(idict).op in ("dict", "loopout", "upd") and kw(e, "prefit") is TRUE and \
-                A1.eq(kw(e, "predict_method"), A1.at(e, "self._predict_method")) and bool(rr.returns) and all(
+                kw(e, "predict_method") is not None and A1.eq(kw(e, "predict_method"), A1.at(e, "self._predict_method")) and bool(rr.returns) and all(
                     v_ is e.data["result"] or (v_.op == "call" and v_.args[0].op in ("boundmethod", "attr") and v_.args[0].args[0] is e.data["result"]
                                                and str(v_.args[0].args[1]).endswith("fit")) for _, v_ in rr.returns)
-        ctx.ob("R04.8", rq, cons[0].node if cons else None, okc, "the routine returns InterpolatedThresholder(estimator_, "
+        ctx.ob(rule, rq, cons[0].node if cons else None, okc, "the routine returns InterpolatedThresholder(estimator_, "
                "interpolation_dict, prefit=True, predict_method=...)", construct="thresholder construction")
     A1 = Analysis(ctx, max_depth=1, inline=lambda f_, d_: False)
     for m, kws in (("predict", ("sensitive_features", "random_state")), ("_pmf_predict", ("sensitive_features",))):
         rp = A1.run(TO + "." + m, cls_ctx=TO)
         want = A1.entry(rp, f"self.interpolated_thresholder_.{m}(X, " + ", ".join(f"{k}={k}" for k in kws) + ")")
         okp = rp.ret is want
-        ctx.ob("R04.8", rp.func, None, okp, f"ThresholdOptimizer.{m} delegates with X, " + ", ".join(kws) + " passed through" if okp else
+        ctx.ob(rule, rp.func, None, okp, f"ThresholdOptimizer.{m} delegates with X, " + ", ".join(kws) + " passed through" if okp else
                f"ThresholdOptimizer.{m} returns {show(rp.ret, maxdepth=4)[:120] if rp.ret is not None else '?'}: an argument is not passed on",
                construct=f"{m} delegation")
